@@ -207,6 +207,35 @@ def gen_cases(ctx):
             recs.insert(rng.randrange(len(recs) + 1), kv)
         local = rng.choice([b'user', b'nouser', b'a-b'])
         add(line(local, dom=[(b'user', 'd', b'fc\n'), DOMFC], par=PARENT, cdb='raw:' + cdb_image(recs).hex()), 'cdb-image')
+    # probe sequences of cdb_seekmm that wrap around the end of a hash table: many domains, the wanted one is
+    # a record that was stored in front of its home slot (the probe has to pass the last slot and go on at slot 0)
+    for _ in range(40 if quick else 600):
+        n = rng.choice([150, 400, 700])
+        doms = list({b'%s%d.example.org' % (rng.choice([b'd', b'w', b'host']), rng.randrange(100000)) for _ in range(n)})
+        tabs = {}
+        for d in doms:
+            h = cdb_hash(b'!' + d + b'-')
+            tabs.setdefault(h & 255, []).append((h, d))
+        wrapped, last = [], []
+        for lst in tabs.values():
+            n2 = 2 * len(lst)
+            slot = [None] * n2
+            for h, d in lst:
+                i = home = (h >> 8) % n2
+                while slot[i] is not None:
+                    i = (i + 1) % n2
+                slot[i] = d
+                if i < home:
+                    wrapped.append(d)
+                elif i == n2 - 1:
+                    last.append(d)
+        pool = wrapped or last or doms
+        want = rng.choice(pool)
+        absent = rng.random() < 0.15
+        recs = [(b'!' + d + b'-', cdbval(b'doms/dom' if d == want else rng.choice([b'doms/other', b'doms/sibling']), d)) for d in doms if not (absent and d == want)]
+        local = rng.choice([b'user', b'nouser'])
+        add(line(local, domain=want, dom=[(b'user', 'd', b'fc\n'), DOMFC], par=PARENT, cdb='raw:' + cdb_image(recs).hex()),
+            'cdb-wrap:' + ('wrapped' if wrapped else 'last-slot' if last else 'plain') + ('-absent' if absent else ''))
     # lengths around every threshold: NAME_MAX - |.qmail-| - |-default| = 240, NAME_MAX - 7 = 248, NAME_MAX = 255
     for L in list(range(236, 260)) + [300, 500, 900, 990, 4070, 4080, 4081, 4082, 4088, 4089, 4090, 4095, 4096, 5000]:
         for shape in ('plain', 'dash', 'dots'):
